@@ -256,3 +256,15 @@ Proof. exact float_eq_same_bytes_after_plus_zero. Qed.
 Print Assumptions grid_hash_bytes_follow_float_eq.
 Theorem grid_hash_raw_bytes_refuted : exists a b : PrimFloat.float, PrimFloat.eqb a b = true /\ a <> b.
 Proof. exact float_eq_same_bytes_refuted. Qed.
+
+(* ================================================================ non-vacuity of the premises *)
+Example repaired_variants_satisfy_premises :
+  v_intv_guard repaired_variants = true /\ v_arrw_hash_type repaired_variants = false /\
+  dv_ps_astype_keeps_w repaired_dvariants = true /\ dv_astype_num_keeps_w repaired_dvariants = true.
+Proof. repeat split. Qed.
+Example ndims_ok_example :
+  ndims_ok 2 (OProd [ODiscr {| p_intv := [(Fin 0%R, Fin 1%R); (NInf, PInf)]; p_grid := [[0%R]; [0%R]] |}
+                           {| ts_shape := [1%Z; 1%Z]; ts_dtype := DFloat64; ts_w := WConst KNpy 1%R (EFin 2%R) |};
+                     OTensor {| ts_shape := [3%Z]; ts_dtype := DFloat64; ts_w := WConst KNpy 1%R (EFin 2%R) |}]
+                    (WConst KPs 1%R (EFin 2%R)) FReal) = true.
+Proof. reflexivity. Qed.
